@@ -38,6 +38,13 @@ pub struct C01 {
     edge_pushpull: u64,
 }
 impl Monitor for C01 {
+    fn twin_kinds(&self) -> u8 {
+        1
+    }
+    fn on_twin_state(&mut self, _kind: u8, o: &Obs, s: &mut Sink) {
+        // nothing judged in on_state depends on the history the twin was given
+        self.on_state(o, s);
+    }
     fn on_state(&mut self, o: &Obs, s: &mut Sink) {
         let sh = o.sh;
         self.states += 1;
@@ -297,6 +304,13 @@ pub struct C04 {
     midturn_norabbit: u64,
 }
 impl Monitor for C04 {
+    fn twin_kinds(&self) -> u8 {
+        7
+    }
+    fn on_twin_state(&mut self, _kind: u8, o: &Obs, s: &mut Sink) {
+        // nothing judged in on_state depends on the history the twin was given
+        self.on_state(o, s);
+    }
     fn on_setup_state(&mut self, o: &SetupObs, s: &mut Sink) {
         s.count("setup_states_judged");
         if o.term.is_some() {
@@ -551,6 +565,13 @@ pub struct C07 {
     can_pass_differs: u64,
 }
 impl Monitor for C07 {
+    fn twin_kinds(&self) -> u8 {
+        7
+    }
+    fn on_twin_state(&mut self, _kind: u8, o: &Obs, s: &mut Sink) {
+        // nothing judged in on_state depends on the history the twin was given
+        self.on_state(o, s);
+    }
     fn on_setup_state(&mut self, o: &SetupObs, s: &mut Sink) {
         s.count("setup_states_judged");
         if o.term.is_none() && o.offered.is_empty() {
